@@ -95,8 +95,29 @@ func vhWarm() {
 		_, _ = TimeoutLocks(cfg, T)(c)
 	}
 	if vx.NSlots("tasks") > 0 && steps >= 4 {
+		// a worker heartbeats (whatever it holds) and a lock holder too: leases were renewed earlier in this process
+		hb := vx.String("warm.heartbeat.process")
+		_, _ = HeartbeatTasks(c, &t_api.Request{Kind: t_api.HeartbeatTasks, Tags: T, HeartbeatTasks: &t_api.HeartbeatTasksRequest{ProcessId: hb}})
+		if vx.NSlots("promises") > 1 && vx.NSlots("callbacks") > 0 && vx.Opt("warmdispatch", 0) == 1 {
+			// an awaiting promise R, an awaited promise L, a callback; L completes; the resume task is handed off (the
+			// hand-off may fail: both courses are part of the earlier history)
+			R, L := vx.String("warm.root"), vx.String("warm.leaf")
+			vx.Assume(vx.And(R != L, R != pid, L != pid))
+			r1, e1 := CreatePromise(c, &t_api.Request{Kind: t_api.CreatePromise, Tags: T, CreatePromise: &t_api.CreatePromiseRequest{Id: R, Timeout: 1 << 62, Tags: map[string]string{}}})
+			need(e1 == nil && r1.CreatePromise.Status == t_api.StatusCreated)
+			r2, e2 := CreatePromise(c, &t_api.Request{Kind: t_api.CreatePromise, Tags: T, CreatePromise: &t_api.CreatePromiseRequest{Id: L, Timeout: 1 << 62, Tags: map[string]string{}}})
+			need(e2 == nil && r2.CreatePromise.Status == t_api.StatusCreated)
+			r3, e3 := CreateCallback(c, &t_api.Request{Kind: t_api.CreateCallback, Tags: T, CreateCallback: &t_api.CreateCallbackRequest{Id: "cb", PromiseId: L, RootPromiseId: R, Timeout: 1 << 62, Recv: vhWarmBytes("warm.recv")}})
+			need(e3 == nil && r3.CreateCallback.Status == t_api.StatusCreated)
+			r4, e4 := CompletePromise(c, &t_api.Request{Kind: t_api.CompletePromise, Tags: T, CompletePromise: &t_api.CompletePromiseRequest{Id: L, State: promise.Resolved}})
+			need(e4 == nil && r4.CompletePromise.Status == t_api.StatusCreated)
+			vx.WarmSenderMayFail()
+		}
 		_, _ = EnqueueTasks(cfg, T)(c)
 		_, _ = TimeoutTasks(cfg, T)(c)
+	}
+	if vx.NSlots("locks") > 0 && steps >= 3 {
+		_, _ = HeartbeatLocks(c, &t_api.Request{Kind: t_api.HeartbeatLocks, Tags: T, HeartbeatLocks: &t_api.HeartbeatLocksRequest{ProcessId: vx.String("warm.heartbeat.lockprocess")}})
 	}
 	vx.WarmEnd()
 }
